@@ -33,6 +33,7 @@
 #include <xercesc/validators/schema/XSDLocator.hpp>
 #include <xercesc/internal/XTemplateSerializer.hpp>
 #include <xercesc/util/OutOfMemoryException.hpp>
+#include <xercesc/util/ValueVectorOf.hpp>
 #include <xercesc/util/XMLInitializer.hpp>
 
 namespace XERCES_CPP_NAMESPACE {
@@ -319,6 +320,73 @@ bool ComplexTypeInfo::useRepeatingLeafNodes(ContentSpecNode* particle)
     return true;
 }
 
+//
+//  The DFA builder keeps the occurrence counter of a repeating leaf per
+//  element (or wildcard) name. The helpers below look for a leaf with
+//  occurrence bounds that need a counter, rather than ?, * or +, and that
+//  shares its name with another leaf of the particle, as in (a, a{2,2}).
+//
+static bool needsCounter(const int minOccurs, const int maxOccurs)
+{
+    return !((minOccurs == 1 && maxOccurs == 1)
+          || (minOccurs == 0 && maxOccurs == 1)
+          || (minOccurs == 0 && maxOccurs == -1)
+          || (minOccurs == 1 && maxOccurs == -1));
+}
+
+static void collectLeaves(ContentSpecNode* const particle,
+                          bool counted,
+                          ValueVectorOf<ContentSpecNode*>& leaves,
+                          ValueVectorOf<ContentSpecNode*>& countedLeaves)
+{
+    if (!particle)
+        return;
+
+    // the bounds of a group with a single leaf become those of the leaf
+    if (needsCounter(particle->getMinOccurs(), particle->getMaxOccurs()))
+        counted = true;
+
+    const ContentSpecNode::NodeTypes type = particle->getType();
+    if (type == ContentSpecNode::Leaf
+    ||  (type & 0x0f) == ContentSpecNode::Any
+    ||  (type & 0x0f) == ContentSpecNode::Any_Other
+    ||  (type & 0x0f) == ContentSpecNode::Any_NS)
+    {
+        leaves.addElement(particle);
+        if (counted)
+            countedLeaves.addElement(particle);
+    }
+    else
+    {
+        collectLeaves(particle->getFirst(), counted, leaves, countedLeaves);
+        collectLeaves(particle->getSecond(), counted, leaves, countedLeaves);
+    }
+}
+
+static bool countedLeafSharesName(ContentSpecNode* const particle,
+                                  MemoryManager* const manager)
+{
+    ValueVectorOf<ContentSpecNode*> leaves(16, manager);
+    ValueVectorOf<ContentSpecNode*> countedLeaves(4, manager);
+    collectLeaves(particle, false, leaves, countedLeaves);
+
+    for (XMLSize_t i = 0; i < countedLeaves.size(); i++)
+    {
+        const ContentSpecNode* const counted = countedLeaves.elementAt(i);
+        const QName* const name = counted->getElement();
+        for (XMLSize_t j = 0; j < leaves.size(); j++)
+        {
+            const ContentSpecNode* const other = leaves.elementAt(j);
+            if (other != counted
+            &&  other->getType() == counted->getType()
+            &&  other->getElement()->getURI() == name->getURI()
+            &&  XMLString::equals(other->getElement()->getLocalPart(), name->getLocalPart()))
+                return true;
+        }
+    }
+    return false;
+}
+
 XMLContentModel* ComplexTypeInfo::makeContentModel(bool checkUPA)
 {
     ContentSpecNode* aSpecNode = new (fMemoryManager) ContentSpecNode(*fContentSpec);
@@ -339,7 +407,13 @@ XMLContentModel* ComplexTypeInfo::makeContentModel(bool checkUPA)
         }
     }
 
-    aSpecNode = convertContentSpecTree(aSpecNode, checkUPA, useRepeatingLeafNodes(aSpecNode));
+    // Counters cannot tell two particles with the same name apart: expand the
+    // bounds of such a model instead. For the Unique Particle Attribution
+    // check every leaf gets a name of its own, so nothing is shared there.
+    const bool useCounters = useRepeatingLeafNodes(aSpecNode)
+        && (checkUPA || !countedLeafSharesName(aSpecNode, fMemoryManager));
+
+    aSpecNode = convertContentSpecTree(aSpecNode, checkUPA, useCounters);
 
     Janitor<ContentSpecNode> janSpecNode(aSpecNode);
 
